@@ -24,13 +24,10 @@ def run(tier: str) -> int:
                 "non-trivial = distinct observation with >= 2 output lines or a pair")
     chk.assumptions = ["projection harness/vocab.py is trusted", "sentence ends are generated as words matching SENTENCE_END_RE "
                        "('aa.'), plain words never match it", "TLC evaluates spec/SentenceTrace.tla correctly"]
-    data = sentence.collect(tier, chk.seed)
-    chk.states, chk.transitions, chk.traces = data["states"], data["transitions"], data["traces"]
-    chk.notes["model_behaviours"] = data["behaviours"]
-    for e in data["errors"]:
-        chk.violation("NoException", e)
-    pairs = 0
-    for meta, rep, t in data["items"]:
+    pairs = [0]
+    sampled = []
+
+    def on_item(meta, rep, t):
         chk.evaluations += 1
         r = sentence.split_report(rep)
         fails = []
@@ -40,7 +37,7 @@ def run(tier: str) -> int:
         else:
             fails.append(("Lossless", None))     # cannot judge breaks of an output that is not the input's words
         if meta["kind"] == "pair":
-            pairs += 1
+            pairs[0] += 1
             if not r["local"]:
                 fails.append(("Local", meta["edited_sentence"]))
         residual = []
@@ -59,9 +56,16 @@ def run(tier: str) -> int:
             chk.drift_note(meta)
         if meta["nlines"] > 1 or meta["kind"] == "pair":
             chk.nontriv(json.dumps([t["words"], t["width"], t["minlen"], t["ii"], t["si"], t["md"], t.get("words2")]))
-    chk.notes["pairs"] = pairs
-    for meta, rep, t in data["items"][:: max(1, len(data["items"]) // 5)][:5]:
-        chk.sample({k: meta.get(k) for k in ("fn", "kind", "text", "width", "minlen", "ii", "si", "output", "text2", "output2")})
+        if len(sampled) < 5 and chk.evaluations % 9973 == 1:
+            sampled.append({k: meta.get(k) for k in ("fn", "kind", "text", "width", "minlen", "ii", "si", "output", "text2", "output2")})
+    data = sentence.collect(tier, chk.seed, on_item=on_item)
+    chk.states, chk.transitions, chk.traces = data["states"], data["transitions"], data["traces"]
+    chk.notes["model_behaviours"] = data["behaviours"]
+    for e in data["errors"]:
+        chk.violation("NoException", e)
+    chk.notes["pairs"] = pairs[0]
+    for smp in sampled:
+        chk.sample(smp)
     chk.exhaustive = True
     chk.explanation = f"SentenceWrap.tla explored exhaustively for {sorted((k, sorted(v) if isinstance(v, set) else v) for k, v in data['consts'].items())}"
     return chk.finish()
